@@ -117,6 +117,12 @@ def main():
                 continue
             r = run(name, tier)
             res[name] = bool(r and r[0])
+            mp = os.path.join(SEEDED, name, "meta.json")
+            meta = json.load(open(mp))
+            head = sh("git -C /repo rev-parse --short HEAD")[1].strip()
+            meta.setdefault("detected_by", {})["%s %s" % (meta["property"], tier)] = (
+                "DETECTED" if res[name] else "PATCH DOES NOT APPLY" if r is None else "MISSED") + " (repo %s)" % head
+            json.dump(meta, open(mp, "w"), indent=1)
         print("detected %d of %d" % (sum(res.values()), len(res)))
 
 
